@@ -294,6 +294,30 @@ func remoteSeeds(full bool) []string {
 			}
 		}
 	}
+	// unusual authorities (IPv6 literals whose last group is not decimal, zones,
+	// trailing dot, default ports) and empty/bare query arguments, on a reduced product
+	for _, t := range []string{"", "git::"} {
+		for _, sc := range []string{"https://", "ssh://"} {
+			for _, h := range []string{"[2001:db8::a]", "[2001:DB8::A]:8443", "[fe80::1%25en0]", "example.com.", "example.com:443", "example.com:22", "example.com:", "EXAMPLE.COM:0443", "127.0.0.1:8080", "xn--eckwd4c7c.example.com", "テラフォーム.example.com"} {
+				for _, p := range []string{"/repo.git", "/foo.tgz", "/a%2Fb.tgz"} {
+					for _, sb := range []string{"", "//sub", "//a b"} {
+						for _, q := range []string{"", "?ref=main", "?archive=tar.gz"} {
+							out = append(out, t+sc+h+p+sb+q)
+						}
+					}
+				}
+			}
+		}
+	}
+	for _, base := range []string{"https://example.com/foo.tgz", "https://example.com/foo", "git::https://example.com/repo.git", "https://example.com/foo.tgz//sub"} {
+		for _, q := range []string{"?checksum=", "?checksum", "?checksum=&checksum=md5:x", "?archive=", "?archive", "?archive=&archive=tgz", "?ref=", "?ref", "?ref=&ref=x", "?depth", "?depth=", "?=x", "?&", "?archive=tgz&checksum", "?archive=TGZ", "?ARCHIVE=zip", "?Checksum=x", "?sshkey"} {
+			out = append(out, base+q)
+		}
+	}
+	// fragments with characters that need escaping
+	for _, f := range []string{"#fr ag", "#fr%20ag", "#é", "#a#b", "#"} {
+		out = append(out, "https://example.com/foo.tgz"+f, "git::https://example.com/repo.git?ref=v1"+f)
+	}
 	// opaque and shorthand forms
 	for _, s := range []string{"git::https:foo", "https:foo.tgz", "git::https:foo//sub", "github.com/o/r", "github.com/o/r.git", "github.com/o/r/sub", "github.com/o/r/sub/dir", "github.com/o/r?ref=x",
 		"github.com/o/r//sub", "github.com/o", "gitlab.com/o/r", "gitlab.com/o/r.git", "gitlab.com/o/r/a/b", "gitlab.com/o/r/a", "gitlab.com/o/r.git//sub?ref=v1", "github.com/o/rgit", "github.com/o/r/..", "GITHUB.com/o/r"} {
@@ -306,7 +330,8 @@ func registrySeeds() (plain, final []string) {
 	hosts := []string{"", "example.com/", "EXAMPLE.com/", "テラフォーム.example.com/", "example.com:8080/", "registry.terraform.io/", "gitlab.com/", "github.com/", "xn--eckwd4c7c.example.com/", "localhost/"}
 	pkgs := []string{"hashicorp/subnets/cidr", "Hashi-Corp/sub_nets/aws", "a/b/c", "a/b/C", "-a/b/c", "a/b", "a/b/c/d"}
 	subs := []string{"", "//sub", "//sub/dir", "//a b", "//é", "//a@b", "//a@1.0.0", "//.", "//..", "//a//b", "//", "//sub?x=1", "//../x"}
-	vers := []string{"@1.0.0", "@1.0.0-beta", "@1.0.0+meta", "@v1.0.0", "@1.0", "@", "@1.0.0-beta+meta"}
+	vers := []string{"@1.0.0", "@1.0.0-beta", "@1.0.0+meta", "@v1.0.0", "@1.0", "@", "@1.0.0-beta+meta",
+		"@9223372036854775808.0.0", "@0.18446744073709551615.1", "@1.0.18446744073709551616", "@01.0.0", "@1.0.0-BETA", "@1.0.0+META.01"}
 	for _, h := range hosts {
 		for _, p := range pkgs {
 			for _, s := range subs {
@@ -941,8 +966,10 @@ func RunC11(tier string) int {
 		bases = append(bases, base{src: r, fin: r, segs: segs, kind: "remote", ident: r.Package().String()})
 		g := sourceaddrs.MustParseSource("example.com/ns/name/sys" + suffix).(sourceaddrs.RegistrySource)
 		bases = append(bases, base{src: g, segs: segs, kind: "registry", ident: g.Package().String()})
-		f := g.Versioned(versions.MustParseVersion("1.2.3"))
-		bases = append(bases, base{fin: f, segs: segs, kind: "final", ident: f.Package().String() + "@" + f.SelectedVersion().String()})
+		for _, ver := range []string{"1.2.3", "2.0.0-beta.2+exp.sha.5114f85", "1.0.0+b"} {
+			f := g.Versioned(versions.MustParseVersion(ver))
+			bases = append(bases, base{fin: f, segs: segs, kind: "final", ident: f.Package().String() + "@" + f.SelectedVersion().String()})
+		}
 	}
 	identOf := func(v any) (string, []string, string) {
 		seg := func(s string) []string {
@@ -1015,6 +1042,23 @@ func RunC11(tier string) int {
 			}
 		}
 		// absolute second argument returned unchanged
+		// ... including an absolute FINAL registry address, which only the final entry point can take
+		for _, abs := range []string{"example.com/a/b/c@1.0.0//z", "example.com/a/b/c@2.0.0-rc.1+m"} {
+			fa, err := sourceaddrs.ParseFinalSource(abs)
+			if err != nil {
+				core.Fatalf("C11 setup: %v", err)
+			}
+			rep.Evaluations++
+			if b.fin != nil {
+				var v sourceaddrs.FinalSource
+				var rerr error
+				if p := guard(func() { v, rerr = sourceaddrs.ResolveRelativeFinalSource(b.fin, fa) }); p != "" {
+					rep.Violation("sourceaddrs.ResolveRelativeFinalSource/panic", fmt.Sprintf("resolve(%v, %v) panics: %s", b.fin, fa, p), "", nil)
+				} else if rerr != nil || v != fa {
+					rep.Violation("sourceaddrs.ResolveRelativeFinalSource/absolute-argument-changed", fmt.Sprintf("resolve(%v, %v) = %v, %v", b.fin, fa, v, rerr), "", nil)
+				}
+			}
+		}
 		for _, abs := range []string{"git::https://other.example.com/x.git//q", "example.com/a/b/c//z", "https://example.com/f.tgz"} {
 			a := sourceaddrs.MustParseSource(abs)
 			rep.Evaluations++
@@ -1177,7 +1221,7 @@ func localNorm(p string) (int, string) {
 // ---------------------------------------------------------------------------
 // C19 part: every token string through every parser, in watched workers
 
-var addrTokens = []string{"ns/name/sys", "git::", "https://", "github.com/", "example.com", "/", "//", "..", ".", "@", "?", "ref=", "&", "#", "%", "%zz", ":", "::", "a", "1.0.0", "é", " ", "\x00"}
+var addrTokens = []string{"ns/name/sys", "git::", "https://", "github.com/", "example.com", "/", "//", "..", ".", "@", "?", "ref=", "&", "#", "%", "%zz", ":", "::", "a", "1.0.0", "é", " ", "\x00", "18446744073709551616", "-", "+"}
 
 type addrTokArg struct {
 	Prefix []int `json:"prefix"`
@@ -1282,7 +1326,6 @@ func init() {
 	})
 }
 
-
 // ---------------------------------------------------------------------------
 // replay of one address value from its provenance (no explorer)
 
@@ -1337,7 +1380,6 @@ func addrPathHandler(raw json.RawMessage) (any, error) {
 }
 
 func init() { core.Register("addrpath", addrPathHandler) }
-
 
 func addrPolicyHandler(raw json.RawMessage) (any, error) {
 	var arg struct {
